@@ -40,6 +40,16 @@
 //	                        paths, cancellation / Close between dial, RPC start and first
 //	                        Send, a server that refuses or closes the stream); no panic,
 //	                        every call returns (guard = inconclusive), order-only clauses.
+//	                        realquery.go: every field of client.Query as a dimension (also
+//	                        Scenario.QOpts / LifeOp.QOpts over the scripted transport);
+//	                        realquiet.go: subscriptions ended through their context while the
+//	                        server holds the stream, decided by a structural hang verdict
+//	                        (process quiescent, sockets idle) instead of the guard.
+//	        callbacks.go    the constructor arguments of client.Reconnect: every combination
+//	                        of nil / given disconnect and reset callbacks, in every part that
+//	                        builds a reconnecting client; one shared judge of the callback
+//	                        discipline for the callbacks that were given; panics of calls of
+//	                        the code under test are verdicts, not crashes.
 package clientprop
 
 import (
@@ -154,6 +164,7 @@ type Scenario struct {
 	Proto        bool   `json:"proto,omitempty"`         // base only: ProtoHandler instead of NotificationHandler
 	Plain        bool   `json:"plain,omitempty"`         // no Reconnect wrapper (one attempt)
 	NilCallbacks bool   `json:"nil_callbacks,omitempty"` // Reconnect(c, nil, nil)
+	Callbacks    string `json:"callbacks,omitempty"`     // "" | "disconnect-only" | "reset-only": only that callback is given (callbacks.go)
 	BaseDelay    int    `json:"base_delay"`              // client.RetryBaseDelay in units
 	MaxDelay     int    `json:"max_delay"`               // client.RetryMaxDelay in units
 	Timeout      int    `json:"timeout,omitempty"`       // Query.Timeout in units, 0 = unset (default 1 minute)
@@ -169,6 +180,9 @@ type Scenario struct {
 	// Stream query; the others vary the query type and the ways Query.Validate
 	// rejects a query.
 	Query string `json:"query,omitempty"`
+	// QOpts names the optional fields of client.Query that are set besides
+	// (queryOpts, realquery.go): they change nothing in what the client owes.
+	QOpts []string `json:"qopts,omitempty"`
 	// Attempts scripts the first len(Attempts) attempts; every later attempt
 	// connects at once, delivers nothing and blocks.
 	Attempts []Attempt `json:"attempts"`
@@ -244,6 +258,9 @@ func (sc *Scenario) validate() error {
 	if sc.Stop != "close" && sc.Stop != "cancel" {
 		return fmt.Errorf("stop %q", sc.Stop)
 	}
+	if err := validCallbacks(sc.Plain, sc.NilCallbacks, sc.Callbacks); err != nil {
+		return err
+	}
 	if sc.SubAt < 0 || sc.StopAt < 0 || sc.Timeout < 0 || sc.Pending < 0 {
 		return fmt.Errorf("negative instant")
 	}
@@ -252,6 +269,9 @@ func (sc *Scenario) validate() error {
 	}
 	if !knownQueryKind(sc.Query) {
 		return fmt.Errorf("query kind %q", sc.Query)
+	}
+	if err := validQOpts(sc.QOpts); err != nil {
+		return err
 	}
 	if !knownCtxKind(sc.Ctx) {
 		return fmt.Errorf("context shape %q", sc.Ctx)
